@@ -131,6 +131,9 @@ pub fn rec_reset(on: bool) {
 pub fn rec_set_phase(p: u64) {
     REC.with(|r| r.borrow_mut().phase = p)
 }
+pub fn rec_put_events(ev: Vec<Ev>) {
+    REC.with(|r| r.borrow_mut().events = ev)
+}
 pub fn rec_take_events() -> Vec<Ev> {
     REC.with(|r| std::mem::take(&mut r.borrow_mut().events))
 }
